@@ -141,9 +141,25 @@ static void check_test(int wi, int capclass)
                 ngot = 0; out_reset(); units_reset(); in_reset();
                 chain_calls = 0;
                 bool chained_u = test_chain && c->test != NULL && W.capU >= 8;
+                /* in two cases of five the command machine is busy meanwhile: the same '=?' request is in flight and its answer is stuck in the output after k bytes
+                 * (the event text is formatted while the command buffer is full of text and partly sent) */
+                bool busy = testable && (size_t)tl + 1 <= W.capA && !test_chain && chance(40); size_t a_units = 0;
+                if (busy) {
+                        static uint8_t bits[1200]; size_t k = 1 + rn((unsigned)tl + 2);
+                        for (size_t i = 0; i < sizeof bits; i++) bits[i] = (uint8_t)(i < k || i >= k + 60);
+                        in_puts(line); in_putc('\n'); sch_bits(&WS, bits, sizeof bits);
+                        for (long i = 0; i < 20000 && OUTN < k; i++) (void)svc();
+                        CNT("test_events_while_the_command_machine_is_answering");
+                }
                 if (cat_trigger_unsolicited_event(W.at, c, CAT_CMD_TYPE_TEST) != CAT_STATUS_OK) { inconclusive("trigger refused"); return; }
-                snprintf(note, sizeof note, "TEST event for \"%s\" at event capacity %zu; reference text is %d bytes", c->name, W.capU, tl);
+                snprintf(note, sizeof note, "TEST event for \"%s\" at event capacity %zu; reference text is %d bytes%s", c->name, W.capU, tl, busy ? "; the command machine is answering the same '=?' request meanwhile (output stuck after some bytes)" : "");
                 if (run_quiet(quiet_bound() + 20000) < 0) { inconclusive("no quiescence"); return; }
+                sch_eager(&WS);
+                if (busy) {      /* set the two units of the command answer aside (checked above on their own), keep what the event machine printed */
+                        int w = 0; for (int i = 0; i < ngot; i++) { if (got[i].prod == 'A') { a_units++; continue; } got[w++] = got[i]; }
+                        ngot = w;
+                        if (a_units != 2) viol("C19", "test-text-differs", "the '=?' answer produced %zu units while an event was formatted next to it", a_units);
+                }
                 bool fits = (size_t)tl + 1 <= W.capU;
                 CNT("test_events");
                 if (fits && chained_u) { if (!(ngot == 2 && strcmp(got[0].text, "~x") == 0 && got[1].prod == 'U' && strcmp(got[1].text, ref) == 0)) viol("C19", "event-test-text-differs", "second pass of the TEST event of \"%s\" must print \"%.200s\"", c->name, ref); }
